@@ -48,7 +48,7 @@ def main():
             try:
                 from concurrent.futures import ThreadPoolExecutor
                 # every registered quick check, run concurrently on the patched /repo; evidence files are restored afterwards (they must describe the unchanged tree)
-                with ThreadPoolExecutor(max_workers=16) as ex:
+                with ThreadPoolExecutor(max_workers=20) as ex:
                     results = list(ex.map(lambda p: (p, sh(f'VERIF_EVIDENCE_DIR=/tmp/seed_evidence python3 sa/check.py {p} --tier quick', cwd=str(V))), checks))
                 for p, rr in results:
                     ran.append(f'python3 sa/check.py {p} --tier quick -> exit {rr.returncode}')
